@@ -29,6 +29,14 @@ def leakStr' (l : Option Int) : String :=
   | none => "leaks 0"
   | some n => s!"leaks 1 {n}"
 
+/-- address of the proxy words of the list object a pool is moved into (`B=`/`P=` of the harness line, with a suffix for the
+second object of a swap) -/
+def objAddr (l : AnyList) (ts : List String) (sfx : String) : Nat :=
+  match l with
+  | .ord _ => kvNat ts ("B" ++ sfx)
+  | .small _ => kvNat ts ("P" ++ sfx)
+  | .free _ => 0
+
 def presPool (st : PoolSt) (r : PRes Pool) : PoolSt × String × String × String :=
   ({ st with pool := some r.st }, outStr r.out, upStr r.ev, r.st.str)
 
@@ -70,13 +78,7 @@ def poolStep (st : PoolSt) (op : List String) (env : List (Option Nat)) : PoolSt
       | none => (st, "no-object", "", "-")
       | some q =>
         let (ev, _, _) := p.destroy { cfg with leak := false }
-        let (nl, ol) : AnyList × AnyList := match q.list with
-          | .ord l => let (a, b) := l.moveTo (kvNat rest "B") (kvNat rest "E"); (.ord a, .ord b)
-          | .small l => (.small { l with P := kvNat rest "P", allocChunk := kvNat rest "P", deallocChunk := kvNat rest "P" },
-                        .small { l with chunks := [], cap := 0, allocChunk := l.P, deallocChunk := l.P })
-          | .free l => (.free l, .free { l with nodes := [], cap := 0 })
-        let np : Pool := { q with list := nl }
-        let old : Pool := { q with list := ol, arena := q.arena.movedFrom, leak := 0 }
+        let (np, old) := q.moveInto (objAddr q.list rest "") (kvNat rest "E")
         ({ st with pool := some np, pool2 := none, poolMoved := some old }, "done", upStr ev, np.str)
     | "swap3" :: rest =>
       -- `tmp(move(a)); a = move(b); b = move(tmp); ~tmp`: the two pools exchange arena, free list and leak count; each list is
@@ -84,12 +86,8 @@ def poolStep (st : PoolSt) (op : List String) (env : List (Option Nat)) : PoolSt
       match st.pool2 with
       | none => (st, "no-object", "", "-")
       | some q =>
-        let rebase (l : AnyList) (b e pp : String) : AnyList := match l with
-          | .ord l => .ord (l.moveTo (kvNat rest b) (kvNat rest e)).1
-          | .small l => .small { l with P := kvNat rest pp, allocChunk := kvNat rest pp, deallocChunk := kvNat rest pp }
-          | .free l => .free l
-        let np : Pool := { q with list := rebase q.list "B" "E" "P" }
-        let nq : Pool := { p with list := rebase p.list "B2" "E2" "P2" }
+        let np : Pool := (q.moveInto (objAddr q.list rest "") (kvNat rest "E")).1
+        let nq : Pool := (p.moveInto (objAddr p.list rest "2") (kvNat rest "E2")).1
         ({ st with pool := some np, pool2 := some nq }, "done", "", np.str)
     | ["peek2"] =>
       match st.pool2 with
@@ -114,13 +112,7 @@ def poolStep (st : PoolSt) (op : List String) (env : List (Option Nat)) : PoolSt
     | ["next_capacity"] => (st, (Out.num p.nextCapacity).str, "", p.str)
     | "move" :: rest =>
       -- the list is moved into the new object: the ordered list re-bases its proxies and resets its cursors
-      let (nl, ol) : AnyList × AnyList := match p.list with
-        | .ord l => let (a, b) := l.moveTo (kvNat rest "B") (kvNat rest "E"); (.ord a, .ord b)
-        | .small l => (.small { l with P := kvNat rest "P", allocChunk := kvNat rest "P", deallocChunk := kvNat rest "P" },
-                      .small { l with chunks := [], cap := 0, allocChunk := l.P, deallocChunk := l.P })
-        | .free l => (.free l, .free { l with nodes := [], cap := 0 })
-      let np : Pool := { p with list := nl }
-      let old : Pool := { p with list := ol, arena := p.arena.movedFrom, leak := 0 }
+      let (np, old) := p.moveInto (objAddr p.list rest "") (kvNat rest "E")
       ({ st with pool := some np, poolMoved := some old }, "done", "", np.str)
     | ["destroy_moved_from"] =>
       match st.poolMoved with
